@@ -1197,6 +1197,9 @@ class WasmToIrCompiler:
         """Emit code to retrieve a memory address"""
         base = self.pop_value()
         if base.ty is not ir.ptr:
+            if base.ty is ir.i32:
+                # wasm addresses are unsigned 32 bit values:
+                base = self.emit(ir.Cast(base, "cast", ir.u32))
             base = self.emit(ir.Cast(base, "cast", ir.ptr))
         offset = self.emit(ir.Const(offset, "offset", ir.ptr))
         address = self.emit(ir.add(base, offset, "address", ir.ptr))
